@@ -19,11 +19,14 @@ CLAIMED = {
     "C10": dict(ref="DESIGN.md §3 C10", note=NOTE,
                 text="Field splitting (AWK-style and literal delimiters), range-expression parsing and Transform are decided for every line / expression "
                      "/ bound inside the limits against independent reference definitions; exhaustive over small bounds is what the property asks for."),
+    "C18": dict(ref="DESIGN.md §3 C18", note=NOTE,
+                text="All initial file contents, size limits and navigation/edit/submit sequences inside the bounds are explored symbolically over the real "
+                     "History code in two consecutive sessions and compared with a list model; exhaustive inside the bound, where tests sample one history."),
 }
 PENDING = "check not built yet in this session (planned, see DESIGN.md §3)"
 NA = {
     "C01": PENDING, "C04": PENDING, "C06": PENDING, "C07": PENDING, "C08": PENDING, "C09": PENDING,
-     "C12": PENDING, "C13": PENDING, "C16": PENDING, "C18": PENDING, "C19": PENDING,
+     "C12": PENDING, "C13": PENDING, "C16": PENDING, "C19": PENDING,
     "C14": "terminal modes, child processes, signals and the goroutine/channel render loop are OS effects and schedules, not a bounded computation the SSA→SMT encoder can make symbolic (DESIGN.md §5)",
     "C15": "relation between the whole Terminal state and the byte stream written through tui.Window; thousands of lines of drawing code on uniseg tables with no leaf whose correctness implies the property (DESIGN.md §5)",
     "C17": "option/bind parsing is decided inside Go's regexp engine (a 400-character alternation and regexes compiled from input); a symbolic regexp is out of reach and contract stubs would create unreal states (DESIGN.md §5)",
